@@ -78,6 +78,12 @@ def install(eng):
                     return eng.builtins["numpy.min" if is_min else "numpy.max"].fn(eng, st, c)
                 xs = eng.unpack_star(st, c)
             xs = [eng.deref(st, x) for x in xs]
+            # +-inf operands (np.inf) are absorbed
+            drop = "-inf" if not is_min else "inf"
+            keep = [x for x in xs if not (isinstance(x, Opaque) and x.name == drop)]
+            if any(isinstance(x, Opaque) and x.name in ("inf", "-inf") for x in keep):
+                raise Unsupported("min/max dominated by an infinite operand")
+            xs = keep
             out = xs[0]
             for x in xs[1:]:
                 if isinstance(x, float):
@@ -434,6 +440,17 @@ def call_method(eng, st, bm, args, kwargs, line=0):
             return StrV()
         if name == "format":
             return StrV()
+    if isinstance(obj, ObjV):
+        node, mod = eng.find_method(obj.cls, name)
+        if node is not None:
+            clo = Closure(node, None, module=mod, name=f"{obj.cls}.{name}")
+            key = f"{mod.relname}:{obj.cls}.{name}"
+            real = eng.cur_state
+            if key in eng.contracts and not real.ghost:
+                from .modular import call_by_contract
+
+                return _Forked(call_by_contract(eng, real, key, clo, [bm.obj] + list(args), dict(kwargs), line))
+            return _Forked(eng.call_closure(real, clo, [bm.obj] + list(args), dict(kwargs), line))
     if V.is_scalar(obj) and name == "item":
         return obj
     if isinstance(obj, Opaque):
